@@ -649,7 +649,7 @@ func init() {
 		ID:     "C05",
 		Level:  "model_checking",
 		Rule:   "every schedule (preemption-bounded DFS with happens-before state cache) of one watcher (register, then consume eagerly / lazily / not until the end), 1-2 writers (successful and failing writes on keys inside and outside the watched prefix) and the real sequencer, fan-out hub, per-watch filter goroutine and context watcher; x event-cache sizes {1,2,3,8} incl. wrap-around x 0-4 events before the window x 7 start revisions relative to the cached window; capacities shrunk (batch 2, subscriber buffer 1-2, result channel 2) so that a stalled consumer overflows after three batches; oracle: the received sequence is a gap-free, duplicate-free prefix of the ground truth (for start 0: a contiguous run starting no later than the first write begun after registration), complete if the stream is still open at quiescence; plus two subscribers on one hub (one never reading, one eager or stalled, same or different prefixes, the second registering before or inside the window) with the hub's fan-out order enumerated, each judged by the same oracle",
-		Assume: []string{"capacities shrunk: eventBatchSize=2, watchBuffer=1|2, resultChanLength=2, watchersChanCapacity=128", "one subscriber per hub, except in the two-subscriber scenarios, where the hub's map iteration order is an enumerated decision of the scheduler", "in-memory engine"},
+		Assume: []string{"capacities shrunk: eventBatchSize=2, watchBuffer=1|2, resultChanLength=2, watchersChanCapacity=100", "one subscriber per hub, except in the two-subscriber scenarios, where the hub's map iteration order is an enumerated decision of the scheduler", "in-memory engine"},
 		Scenarios: func(tier string) []*mc.Scenario {
 			var out []*mc.Scenario
 			for _, c := range c05Configs(tier) {
